@@ -65,6 +65,15 @@ theorem wsymm_one (k : Kind) (name : String) (hn : name ∈ k.names)
   obtain ⟨a, rfl, _⟩ := callFunc_ok k _ _ _ _ h
   cases k <;> rfl
 
+/-- the same relation between the specified lists (specification level, any class) -/
+theorem spec_periodic_prefix {α : Type} [TrigField α] (k : Kind) (a : α) (n : Nat) :
+    periodic k a n = (symmetric k a (n + 1)).take n := by
+  by_cases h : n = 0
+  · subst h; simp [periodic]
+  · have h1 : ¬ (n + 1 = 1) := by omega
+    simp only [periodic, symmetric, h1, if_false, Nat.add_sub_cancel, ← List.map_take, List.take_range]
+    simp
+
 /-- the generated parameter defaults are the documented ones (blackman 0.16, cos 1) -/
 theorem alpha_defaults (k : Kind) : alphaDefault (α := α) k.sname = k.alphaDefault :=
   alphaDefault_sname k
@@ -123,6 +132,19 @@ theorem blackman_closed_form (N n a : ℝ) : blackman N n a
 theorem cos_closed_form (N n a : ℝ) : Gen.Windows.cos N n a = Real.sin (Real.pi * n / N) ^ a := by
   simpa [sample, genFormula] using genFormula_eq_sample .cos a N n
 
+/-- relations between the families (sanity of the closed forms) -/
+theorem hann_eq_blackman_zero (N n : ℝ) : hann N n = blackman N n 0 := by
+  simp [hann, blackman]; ring
+
+/-- hann is the squared cosine-family window (`cos` with alpha = 2) -/
+theorem hann_eq_cos_two (N n : ℝ) : hann N n = Gen.Windows.cos N n 2 := by
+  have h := Real.cos_sq' (Real.pi * n / N)
+  have h2 : Real.cos (2 * Real.pi * n / N) = 2 * Real.cos (Real.pi * n / N) ^ 2 - 1 := by
+    rw [← Real.cos_two_mul]; congr 1; ring
+  simp only [hann, Gen.Windows.cos, TrigField.real_ofInt, TrigField.real_ofRat, TrigField.real_pi, TrigField.real_cos,
+    TrigField.real_sin, TrigField.real_pow, Int.cast_ofNat, Int.cast_one, Nat.cast_ofNat]
+  rw [h2, Real.rpow_two]
+  nlinarith [Real.sin_sq_add_cos_sq (Real.pi * n / N)]
 /-- **model = spec**: for every dictionary, every documented name (the two aliases `wsymm` lacks
     excepted), every size and every parameter, the call through the modelled registry, generated
     template and generated formula returns exactly the specified list. -/
@@ -134,14 +156,31 @@ theorem call_eq_spec (symmDict : Bool) (k : Kind) (name : String) (hn : name ∈
         | none => Outcome.err "TypeError" := by
   rw [call_some (dict_get symmDict k name hn hgap), callFunc_kind]
   cases alpha <;> cases k <;> cases symmDict <;>
-    simp [specList, Kind.alphaDefault, Kind.distinct, periodicT_eq_spec, symmT_eq_spec]
+    simp [specList, effAlpha, Kind.alphaDefault, Kind.distinct, periodicT_eq_spec, symmT_eq_spec]
+
+/-- what a successful call returns, in terms of the specification -/
+theorem call_ok_spec (symmDict : Bool) (k : Kind) (name : String) (hn : name ∈ k.names)
+    (hgap : symmDict = true → k.distinct = false → name = k.sname) (size : ℕ) (alpha : Option ℝ) (xs : List ℝ)
+    (h : call (if symmDict then DictId.wsymm else .window) (some name) (size : Int) alpha = .ok xs) :
+    xs = if (symmDict && k.distinct) then symmetric k (effAlpha k alpha) size else periodic k (effAlpha k alpha) size := by
+  rw [call_eq_spec symmDict k name hn hgap] at h
+  cases hs : specList k (symmDict && k.distinct) alpha size with
+  | none => rw [hs] at h; cases h
+  | some ys =>
+    rw [hs] at h
+    injection h with h
+    subst h
+    unfold specList at hs
+    split at hs
+    · cases hs
+    · injection hs with hs; exact hs.symm
 
 /-- the dictionaries called directly use `hann` -/
 theorem call_default_eq_spec (symmDict : Bool) (size : ℕ) :
     call (if symmDict then DictId.wsymm else .window) none (size : Int) (none : Option ℝ)
       = .ok (if symmDict then symmetric .hann 0 size else periodic .hann 0 size) := by
   have h := call_eq_spec symmDict .hann "hann" (by decide) (by intro _ h; cases h) size none
-  cases symmDict <;> simpa [call, specList, Kind.alphaDefault, Kind.distinct, defaults, State.dict] using h
+  cases symmDict <;> simpa [call, specList, effAlpha, Kind.alphaDefault, Kind.distinct, defaults, State.dict] using h
 
 /-! ## Part 4 — the specified windows: prefix, symmetry, size 1, range (over ℝ) -/
 
@@ -154,6 +193,18 @@ theorem spec_length (k : Kind) (a : ℝ) (size : ℕ) :
 theorem wsymm_symmetric (k : Kind) (a : ℝ) (size : ℕ) :
     (symmetric k a size).reverse = symmetric k a size :=
   symmetric_reverse k a size
+
+/-- … and so is every list a call on `wsymm` returns (model level) -/
+theorem call_wsymm_symmetric (k : Kind) (name : String) (hn : name ∈ k.names)
+    (hgap : k.distinct = false → name = k.sname) (size : ℕ) (alpha : Option ℝ) (xs : List ℝ)
+    (h : call .wsymm (some name) (size : Int) alpha = .ok xs) : xs.reverse = xs := by
+  have := call_ok_spec true k name hn (fun _ => hgap) size alpha xs h
+  subst this
+  cases hd : k.distinct
+  · have hk : k = .rect := by cases k <;> first | rfl | simp [Kind.distinct] at hd
+    subst hk
+    simpa using periodic_rect_reverse _ size
+  · simpa using symmetric_reverse k _ size
 
 /-- sample `i` equals sample `size − 1 − i` -/
 theorem wsymm_symmetric_index (k : Kind) (a : ℝ) (size i : ℕ) (hi : i < size) :
@@ -173,6 +224,18 @@ theorem window_range (k : Kind) (a : ℝ) (ha : rangeOK k a) (size : ℕ) :
 theorem wsymm_range (k : Kind) (a : ℝ) (ha : rangeOK k a) (size : ℕ) :
     ∀ x ∈ symmetric k a size, 0 ≤ x ∧ x ≤ 1 :=
   symmetric_range k a ha size
+
+/-- every list a call returns lies in [0,1] (model level; `effAlpha` = given or default parameter) -/
+theorem call_range (symmDict : Bool) (k : Kind) (name : String) (hn : name ∈ k.names)
+    (hgap : symmDict = true → k.distinct = false → name = k.sname) (size : ℕ) (alpha : Option ℝ) (xs : List ℝ)
+    (ha : rangeOK k (effAlpha k alpha))
+    (h : call (if symmDict then DictId.wsymm else .window) (some name) (size : Int) alpha = .ok xs) :
+    ∀ x ∈ xs, 0 ≤ x ∧ x ≤ 1 := by
+  have := call_ok_spec symmDict k name hn hgap size alpha xs h
+  subst this
+  split
+  · exact symmetric_range k _ ha size
+  · exact periodic_range k _ ha size
 
 /-- the hypothesis of `window_range` for blackman is forced: with `alpha = 1` the closed form is
     negative at a quarter of the period -/
@@ -200,16 +263,32 @@ theorem cola_hop_quarter (k : Kind)
     (h j : ℕ) (hj : j < h) : some (hopSum (periodic k a (4 * h)) h j) = colaConst k a 4 :=
   cola_quarter k hk a h j hj
 
+/-- the same on the lists the calls return (model level) -/
+theorem call_cola_half (k : Kind) (hk : k = .hann ∨ k = .hamming ∨ k = .bartlett ∨ k = .rect)
+    (name : String) (hn : name ∈ k.names) (alpha : Option ℝ) (h j : ℕ) (hj : j < h) (xs : List ℝ)
+    (hc : call .window (some name) ((2 * h : ℕ) : Int) alpha = .ok xs) :
+    some (hopSum xs h j) = colaConst k (effAlpha k alpha) 2 := by
+  have := call_ok_spec false k name hn (by intro h; cases h) (2 * h) alpha xs hc
+  subst this
+  simpa using cola_half k hk _ h j hj
+
+theorem call_cola_quarter (k : Kind) (hk : k = .hann ∨ k = .hamming ∨ k = .blackman ∨ k = .bartlett ∨ k = .rect)
+    (name : String) (hn : name ∈ k.names) (alpha : Option ℝ) (h j : ℕ) (hj : j < h) (xs : List ℝ)
+    (hc : call .window (some name) ((4 * h : ℕ) : Int) alpha = .ok xs) :
+    some (hopSum xs h j) = colaConst k (effAlpha k alpha) 4 := by
+  have := call_ok_spec false k name hn (by intro h; cases h) (4 * h) alpha xs hc
+  subst this
+  simpa using cola_quarter k hk _ h j hj
 /-! ## non-vacuity -/
 
 example : (4 : ℕ) < 7 ∧ rangeOK .blackman (4 / 25) := ⟨by decide, by constructor <;> norm_num⟩
 example : rangeOK .cos 2 := by show (0 : ℝ) ≤ 2; norm_num
 example : "hanning" ∈ Kind.hann.names ∧ (Kind.hann.distinct = false → "hanning" = Kind.hann.sname) := by decide
 example : call (α := ℝ) .wsymm (some "triangle") 5 none = .ok (symmetric .triangular 0 5) := by
-  simpa [specList, Kind.alphaDefault, Kind.distinct] using
+  simpa [specList, effAlpha, Kind.alphaDefault, Kind.distinct] using
     call_eq_spec true .triangular "triangle" (by decide) (by decide) 5 none
 example : call (α := ℝ) .window (some "blackman") 8 (some (1/4)) = .ok (periodic .blackman (1/4) 8) := by
-  simpa [specList, Kind.alphaDefault, Kind.distinct] using
+  simpa [specList, effAlpha, Kind.alphaDefault, Kind.distinct] using
     call_eq_spec false .blackman "blackman" (by decide) (by decide) 8 (some (1/4))
 example : generated.wsymm.get "rect" = generated.window.get "rect" := by decide
 example : (1 : ℕ) < 3 ∧ (Kind.hann = .hann ∨ Kind.hann = .hamming ∨ Kind.hann = .bartlett ∨ Kind.hann = .rect) :=
